@@ -39,6 +39,7 @@ PLANS = {
                 wit=['reentrant_request', 'reentrant_cancel']),
             job('life-tcp', 'life-tcp', 'C01', {'quick': 4, 'thorough': 5}, {'quick': 1, 'thorough': 2}, wit=['tx_tcp', 'short_write']),
             job('life-reconf', 'life-reconf', 'C01', {'quick': 4, 'thorough': 5}, 1, wit=['reentrant_set_servers', 'tx_tcp', 'tx_udp']),
+            job('opts-reconf', 'opts-reconf', 'C01', 4, 0, tiers=('thorough',), wit=['reentrant_set_servers']),
             job('opts', 'opts', 'C01', {'quick': 4, 'thorough': 4}, {'quick': 0, 'thorough': 1}, wit=['reentrant_cancel', 'tx_tcp', 'tx_udp']),
         ],
     },
